@@ -113,11 +113,42 @@ def cfg_windows(tier, seed):
             out.append({'N': [Nr, Nc], 'n': [nr, nc], 'os': 1})
             if Nr % 2 == 0 and Nc % 2 == 0:
                 out.append({'N': [Nr, Nc], 'n': [nr, nc], 'os': 2})           # windows given in pixels, evaluated in oversampled samples
+    # three tilted segments whose small windows land side by side: two that do not touch and one that bridges them, in every storage order
+    for order in ([-1, 1, 0], [1, -1, 0], [-1, 0, 1], [0, -1, 1]):
+        out.append({'N': [2, 8], 'n': [2, 3], 'os': 1, 'bridge': order, '_concrete': 4})
     return out, len(out), True
+
+
+def run_bridge(W, cfg):
+    from fractions import Fraction as _F
+    lt = W.lentil
+    nr, nc = cfg['n']
+    Nr, Nc = cfg['N']
+    A = W.reals('a', (nr, nc))
+    O = W.reals('o', (nr, nc))
+    lam = W.real('lam', pos=True)
+    f = W.real('f', pos=True)
+    dx = (W.real('dxr', pos=True), W.real('dxc', pos=True))
+    du = (lam * f / (Nr * dx[0]), lam * f / (Nc * dx[1]))
+    mask = rnp.zeros((nc, nr, nc), dtype=int)
+    for g in range(nc):
+        mask[g, :, g] = 1
+    pupil = lt.Pupil(amplitude=A, opd=O, pixelscale=dx, focal_length=f, mask=mask)
+    # whole samples plus a third, away from the rounding ties of the window placement
+    subs = [_F(s) + (_F(1, 3) if s >= 0 else _F(-1, 3)) for s in cfg['bridge']]
+    pupil.tilt = [lt.Tilt(x=W.const(_F(0)) * du[0] / f, y=-(W.const(k) * du[1]) / f) for k in subs]
+    w = lt.Wavefront(lam) * pupil
+    o = lt.propagate_dft(w, pixelscale=du, shape=(Nr, Nc), prop_shape=(2, 2), oversample=1)
+    inten = o.intensity
+    fld = o.field
+    W.ob('bridging windows: intensity = |coherent field|^2', inten, W.array([[W.abs2(fld[i, j]) for j in range(Nc)] for i in range(Nr)]))
+    W.ob_true('bridging windows: three output fields with different windows', len({tuple(int(v) for v in fd.offset) for fd in o.data}) == 3)
 
 
 def run_windows(W, cfg):
     """nested centred windows W1 < W2 < full: every sample is window independent (so sums are monotone once samples are >= 0)."""
+    if cfg.get('bridge'):
+        return run_bridge(W, cfg)
     lt, w, du, power, A = _setup(W, cfg)
     Nr, Nc = cfg['N']
     osw = cfg['os']
@@ -195,9 +226,16 @@ def run_norm(W, cfg):
     if W.sym:
         P = P.as_real() if hasattr(P, 'as_real') else P
     W.assume(P > 0)
+    a0 = a.copy()
     out = lt.normalize_power(a, p)
     tot = W.sum(W.abs2(out[i, j]) for i in range(shp[0]) for j in range(shp[1]))
     W.ob('power = p', tot, p)
+    # the same amplitude normalised to a second target: the first result and the caller's array stay what they were
+    q = W.real('q', pos=True)
+    out2 = lt.normalize_power(a, q)
+    W.ob('second target: power = q', W.sum(W.abs2(out2[i, j]) for i in range(shp[0]) for j in range(shp[1])), q)
+    W.ob('first result still has power p', W.sum(W.abs2(out[i, j]) for i in range(shp[0]) for j in range(shp[1])), p)
+    W.ob('the caller\'s amplitude is untouched', a, a0)
 
 
 HARNESSES = {
